@@ -100,7 +100,10 @@ def main(tier):
     chk.add_tlc("PyDRexC01_seed", sres, "every ordered pair of default constructions over seeds {0, 1, 2, 12345} x grain counts x phases: equal (seed, n) must give bit-identical initial textures")
     nshort = len(behs)
     behs = behs + longs + seeds
-    events, comp = layerb.run_behaviours(chk, "C01", behs, fcheck=False, dt_of=lambda tid: DTS[tid % len(DTS)] if tid < nshort else 0.4, F0_of=lambda tid: F0S[tid % len(F0S)])
+    events, comp = layerb.run_behaviours(chk, "C01", behs, fcheck=False, dt_of=lambda tid: DTS[tid % len(DTS)] if tid < nshort else 0.4, F0_of=lambda tid: F0S[tid % len(F0S)],
+                                         # clock origins: an update over [T, T + dt] is an update over dt, whatever the size of T
+                                         # (model time in years or seconds, clocks that count down to the present)
+                                         origin_of=lambda tid: (0.0, 0.0, 3.2e4, 0.0, 0.0, -1.7e5, 0.0)[tid % 7] if tid < nshort else 0.0)
     rs = np.random.default_rng(SEED + 1)
     # larger counts: seeded draws below the switch to the banded Jacobian (4632 grains), and (thorough tier) ONE count above it (the
     # banded work array of the solver grows to several GB - at 10 000 grains a single update held 21 GB resident)
